@@ -106,6 +106,16 @@ add("C01", "model_checking",
     "All-order exploration of the grouping functions themselves on all structures is in C12.",
     "exhaustive enumeration of row permutations / index labellings of bounded populations with a differential oracle", "2/C01")
 
+add("C02", "model_checking",
+    "Differential exploration, real vs. real: all ordered pairs (A, B) of library households with disjoint ids x placements (B after A, B "
+    "before A in every rotation of B so that each B row is the first row once, interleaved) x dates: every node of A in the joint "
+    "simulation must equal A simulated alone bit for bit (id nodes as partitions; no id shared between the two households). Seven "
+    "consistent relabellings of p_id / hh_id (shift, affine, order-reversing, sparse, p-only, hh-only, zero-based ranks) applied to all "
+    "pointer columns must change only labels. Direct enumeration of the derived-id arithmetic (bg_id, wthh_id) incl. up to 12 "
+    "self-sufficient children in one family unit.",
+    "Populations are the library households; ids stay below 10^6 / 10^4 (memory of numpy_groupies).",
+    "exhaustive enumeration of household pairs x placements x relabellings with a differential oracle", "2/C02")
+
 NOT_APPLICABLE = []
 
 
